@@ -276,7 +276,8 @@ fn find_vars(name: &str, proc_name: &str, program: &Program) -> Vec<Identifier> 
             ArrayAccess(a) => {
                 let mut idents = find_in_variable(&a.array, name);
                 if let Some(index) = &a.index {
-                    let new_idents = find_in_expression(index, name);
+                    // the index expression has its own reference frame
+                    let new_idents = find_in_expression(index, name).shift(index.offset);
                     idents.extend(new_idents);
                 }
                 idents
